@@ -3,6 +3,7 @@ CONSTANTS
   Peer = {}
   Group = {}
   MaxKnown = 0
+  HsDirs = {}
   FNode <- F3
   Overlays <- AllOverlays
   Joined <- AnyJoined
